@@ -184,6 +184,13 @@ def objects(family, seed=0):
                 for op in BINOPS:
                     yield Q(["boost", [op, T(a), T(b)], 0.5])
                     yield Q(["boost", [op, T(a), T(b)], 2.0])
+    elif family == "and3":
+        # nested intersections (a 3-clause And is a tree of two) over all
+        # triples of the representative alignments
+        for a in RED:
+            for b in RED:
+                for c in RED:
+                    yield Q(["and", [T(a), T(b), T(c)]])
     elif family == "three":
         for op in NARY:
             for a in R6:
@@ -1123,8 +1130,9 @@ def plan(tier, seed):
             add(NA[(r + 2) % 3], w, "top", "boost", 8, depth, only=[wi])
             add(NA[(r + 1) % 3], w, "top", "three", 8, depth, only=[wi + 1])
             add(NA[r % 3], w, "top", "nested", 16, depth, only=[wi, wi + 8])
-        for lay in NA + [B]:
+        for lay in NA:
             add(lay, "bm25", "top", "two", 4, depth)
+        add(B, "bm25", "top", "two6", 2, depth)
         add(A, "bm25", "top", "direct", 16, depth)
         add(M3, "bm25", "top", "direct", 16, depth, only=[seed + 2 * i for i in range(8)])
         add(B, "bm25", "top", "direct", 8, depth, only=[seed, seed + 3, seed + 6])
@@ -1138,8 +1146,10 @@ def plan(tier, seed):
         add(M2, "bm25", "top", "two6", 4, depth)
         add(M1, "bm25", "top", "three", 8, depth, only=[seed, seed + 3])
         add(M2, "bm25", "leaves", "two6", 4, depth, only=[seed, seed + 2])
-        # integer-like weights (TF_IDF) make block qualities tie
-        add(A2, "tfidf", "top", "three", 8, depth)
+        for li, lay in enumerate(NA):
+            add(lay, "tfidf", "top", "and3", 4, depth)
+            if li == seed % 3:
+                add(lay, "bm25", "top", "and3", 4, depth)
         for w in ("multi", "bm25_fieldb", "bm25"):
             add(A2, w, "top", "two_w", 4, depth)
         for w in W_NOCLAIM:
@@ -1162,7 +1172,9 @@ def plan(tier, seed):
             add(NA[(r + 1) % 3], w, "top", "three", 16, depth)
             add(NA[r % 3], w, "top", "nested4" if w in ("bm25", "tfidf") else "nested", 48, depth)
             add(A2, w, "top", "two_w", 8, depth)
-        add(A2, "tfidf", "top", "three", 16, depth)
+        for lay in NA:
+            for w in W_CLAIM:
+                add(lay, w, "top", "and3", 4, depth)
         for lay in (B, M1):
             add(lay, "bm25", "top", "nested", 32, depth)
             add(lay, "bm25", "top", "three", 16, depth)
